@@ -123,3 +123,66 @@ Theorem C03_py_distance_as_written_bounded :
   ((if mld_some && cltb mld (Fin (Z.abs (Z.of_nat (length s1) - Z.of_nat (length s2)))) then RPlain Inf
     else RSqrt (bounded B (dtw_value u s1 s2))), true).
 Proof. exact py_distance_spec. Qed.
+
+(* THE PRUNING BOOKKEEPING OF THE C WARPING-PATHS KERNELS IS ONE RULE.  Each of the eight row loops regenerated from
+   dd_dtw.c (Gen_cwpsk.v: regions A-D of dtw_warping_paths_ndim and of its Euclidean twin) is, after the head fill and
+   apart from the scalars of its region, the SAME row core CWpsKernel.k_wrow_core: forget the pruned start column
+   while a path can still start in the zero border (`if (ri <= psi_1b) sc = 0`), skip to it with the shared skip loop,
+   run the shared cell loop (CWpsCanon.k_wcell: cell value, `<= max_dist` test, sc / ec_next / smaller_found update,
+   break beyond ec) and fill the tail.  A region or a kernel that departs from the rule breaks this theorem. *)
+From DV Require Import CWpsCanon CWpsKernel CWpsTie CWpsTieEu.
+From DVGen Require Import Gen_cwpsk.
+Local Notation cell_sq l1 l2 ndim s1 s2 ri fd fu md ms pen rw rwp wl :=
+  (fun ec => k_wcell (wdok l1 l2 ndim s1 s2 (ri * ndim)%Z) (wdfun_sq l1 l2 ndim s1 s2 (ri * ndim)%Z) fd fu ec md ms pen rw rwp wl).
+Local Notation cell_eu l1 l2 ndim s1 s2 ri fd fu md ms pen rw rwp wl :=
+  (fun ec => k_wcell (wdok l1 l2 ndim s1 s2 (ri * ndim)%Z) (wdfun_eu l1 l2 ndim s1 s2 (ri * ndim)%Z) fd fu ec md ms pen rw rwp wl).
+
+Theorem C03_c_wps_rows_share_one_pruning_core :
+  forall (psi_1b l1 l2 ndim : Z) (md ms pen : cost) (pw : Z) (s1 s2 : list Z) (wl : Z),
+  (forall min_ci st ri, c_dtw_warping_paths_ndim_loop5 psi_1b l1 l2 min_ci ndim md ms pen pw s1 s2 wl st ri =
+     let '(ec, max_ci, ok, rw, rwp, sc, wps) := st in
+     k_wrow_core k_wskip (cell_sq l1 l2 ndim s1 s2 ri fdA fuA md ms pen rw rwp wl) k_wfill psi_1b ri min_ci max_ci pw wl rw ec ok sc wps 1%Z
+       (fun ec ok sc wps => (ec, (max_ci + 1)%Z, ok, (rw + pw)%Z, rw, sc, wps))) /\
+  (forall max_ci min_ci st ri, c_dtw_warping_paths_ndim_loop10 psi_1b l1 l2 max_ci min_ci ndim md ms pen pw s1 s2 wl st ri =
+     let '(ec, ok, rw, rwp, sc, wps) := st in
+     k_wrow_core k_wskip (cell_sq l1 l2 ndim s1 s2 ri fdA fuA md ms pen rw rwp wl) k_wfill psi_1b ri min_ci max_ci pw wl rw ec ok sc wps 1%Z
+       (fun ec ok sc wps => (ec, ok, (rw + pw)%Z, rw, sc, wps))) /\
+  (forall st ri, c_dtw_warping_paths_ndim_loop15 psi_1b l1 l2 ndim md ms pen pw s1 s2 wl st ri =
+     let '(ec, max_ci, min_ci, ok, rw, rwp, sc, wps) := st in
+     k_wrow_core k_wskip (cell_sq l1 l2 ndim s1 s2 ri fdC fuC md ms pen rw rwp wl) k_wfill psi_1b ri min_ci max_ci pw wl rw ec
+       (ok && CLang.inb wl rw)%bool sc (CLang.aset wps rw Inf) 1%Z
+       (fun ec ok sc wps => (ec, (max_ci + 1)%Z, (min_ci + 1)%Z, ok, (rw + pw)%Z, rw, sc, wps))) /\
+  (forall st ri, c_dtw_warping_paths_ndim_loop20 psi_1b l1 l2 ndim md ms pen pw s1 s2 wl st ri =
+     let '(ec, min_ci, ok, rw, rwp, sc, wps, wpsi_start) := st in
+     let '(ok0, wps0) := fold_left (k_wfill wl) (Prelude.zrange rw (rw + wpsi_start)%Z) (ok, wps) in
+     k_wrow_core k_wskip (cell_sq l1 l2 ndim s1 s2 ri fdA fuA md ms pen rw rwp wl) k_wfill psi_1b ri min_ci l2 pw wl rw ec ok0 sc wps0 wpsi_start
+       (fun ec ok sc wps => (ec, (min_ci + 1)%Z, ok, (rw + pw)%Z, rw, sc, wps, (wpsi_start + 1)%Z))) /\
+  (forall min_ci st ri, c_dtw_warping_paths_ndim_euclidean_loop5 psi_1b l1 l2 min_ci ndim md ms pen pw s1 s2 wl st ri =
+     let '(ec, max_ci, ok, rw, rwp, sc, wps) := st in
+     k_wrow_core k_wskip (cell_eu l1 l2 ndim s1 s2 ri fdA fuA md ms pen rw rwp wl) k_wfill psi_1b ri min_ci max_ci pw wl rw ec ok sc wps 1%Z
+       (fun ec ok sc wps => (ec, (max_ci + 1)%Z, ok, (rw + pw)%Z, rw, sc, wps))) /\
+  (forall max_ci min_ci st ri, c_dtw_warping_paths_ndim_euclidean_loop10 psi_1b l1 l2 max_ci min_ci ndim md ms pen pw s1 s2 wl st ri =
+     let '(ec, ok, rw, rwp, sc, wps) := st in
+     k_wrow_core k_wskip (cell_eu l1 l2 ndim s1 s2 ri fdA fuA md ms pen rw rwp wl) k_wfill psi_1b ri min_ci max_ci pw wl rw ec ok sc wps 1%Z
+       (fun ec ok sc wps => (ec, ok, (rw + pw)%Z, rw, sc, wps))) /\
+  (forall st ri, c_dtw_warping_paths_ndim_euclidean_loop15 psi_1b l1 l2 ndim md ms pen pw s1 s2 wl st ri =
+     let '(ec, max_ci, min_ci, ok, rw, rwp, sc, wps) := st in
+     k_wrow_core k_wskip (cell_eu l1 l2 ndim s1 s2 ri fdC fuC md ms pen rw rwp wl) k_wfill psi_1b ri min_ci max_ci pw wl rw ec
+       (ok && CLang.inb wl rw)%bool sc (CLang.aset wps rw Inf) 1%Z
+       (fun ec ok sc wps => (ec, (max_ci + 1)%Z, (min_ci + 1)%Z, ok, (rw + pw)%Z, rw, sc, wps))) /\
+  (forall st ri, c_dtw_warping_paths_ndim_euclidean_loop20 psi_1b l1 l2 ndim md ms pen pw s1 s2 wl st ri =
+     let '(ec, min_ci, ok, rw, rwp, sc, wps, wpsi_start) := st in
+     let '(ok0, wps0) := fold_left (k_wfill wl) (Prelude.zrange rw (rw + wpsi_start)%Z) (ok, wps) in
+     k_wrow_core k_wskip (cell_eu l1 l2 ndim s1 s2 ri fdA fuA md ms pen rw rwp wl) k_wfill psi_1b ri min_ci l2 pw wl rw ec ok0 sc wps0 wpsi_start
+       (fun ec ok sc wps => (ec, (min_ci + 1)%Z, ok, (rw + pw)%Z, rw, sc, wps, (wpsi_start + 1)%Z))).
+Proof.
+  intros psi_1b l1 l2 ndim md ms pen pw s1 s2 wl. repeat split; intros.
+  - apply tie_sq_rowA.
+  - apply tie_sq_rowB.
+  - apply tie_sq_rowC.
+  - apply tie_sq_rowD.
+  - apply tie_eu_rowA.
+  - apply tie_eu_rowB.
+  - apply tie_eu_rowC.
+  - apply tie_eu_rowD.
+Qed.
